@@ -518,6 +518,48 @@ func statusSetFact(fact string, props []string, rel, fn string) {
 	emitNatList(fact, props, codes)
 }
 
+// muxRoutes: `<mux>.HandleFunc("<path>", p.<Handler>)` and `<mux>.PathPrefix("<prefix>").HandlerFunc(p.<Handler>)` inside one function
+func muxRoutes(fact string, props []string, rel, recv, fn string) {
+	fd := findFunc(parse(rel), recv, fn)
+	if fd == nil || fd.Body == nil {
+		fail(fact, props, fn+" not found in "+rel)
+		return
+	}
+	var pairs [][2]string
+	ast.Inspect(fd.Body, func(n ast.Node) bool {
+		c, ok := n.(*ast.CallExpr)
+		if !ok {
+			return true
+		}
+		se, ok := c.Fun.(*ast.SelectorExpr)
+		if !ok {
+			return true
+		}
+		if se.Sel.Name == "HandleFunc" && len(c.Args) == 2 {
+			if lit, ok := c.Args[0].(*ast.BasicLit); ok {
+				pairs = append(pairs, [2]string{unq(lit.Value), exprString(c.Args[1])})
+			}
+			return false
+		}
+		if se.Sel.Name == "HandlerFunc" && len(c.Args) == 1 {
+			if inner, ok := se.X.(*ast.CallExpr); ok {
+				if ise, ok := inner.Fun.(*ast.SelectorExpr); ok && ise.Sel.Name == "PathPrefix" && len(inner.Args) == 1 {
+					if lit, ok := inner.Args[0].(*ast.BasicLit); ok {
+						pairs = append(pairs, [2]string{"prefix:" + unq(lit.Value), exprString(c.Args[0])})
+					}
+				}
+			}
+			return false
+		}
+		return true
+	})
+	if len(pairs) == 0 {
+		fail(fact, props, "no routes found in "+fn)
+		return
+	}
+	emitPairList(fact, props, pairs)
+}
+
 func unq(s string) string {
 	u, err := strconv.Unquote(s)
 	if err != nil {
